@@ -194,6 +194,46 @@ def update_logged_is_applied(F):
     return out
 
 
+def replay_applies(F):
+    """recover: once an entry is not skipped (O2.1), its effect reaches the rebuilt document map before the next entry is read —
+    Insert: documents.insert(entry.doc_id, ..) unless the dimension check bails (an error, not a silent skip);
+    Delete: documents.remove(&entry.doc_id);  UpdateMetadata on a present document: the stored metadata is overwritten by
+    entry.metadata.  No payload-dependent shortcut (e.g. "empty map: nothing to do") may lie between the arm and the effect."""
+    rc = FnCheck(F, REC)
+    if rc.fn is None:
+        return [rc.missing()]
+    fn = rc.fn
+    vi = {n: variant_index("persistence.rs", "WalOp", n) for n in ("Insert", "Delete", "UpdateMetadata")}
+    fi = {n: field_index("persistence.rs", "WalEntry", n) for n in ("doc_id", "metadata")}
+    if None in vi.values() or None in fi.values():
+        return [Result("inconclusive", "WalOp variants / WalEntry fields not found: %s %s" % (vi, fi))]
+    OPRX = r"^discr\(.*: persistence::WalOp\)\)$"
+    ENTRY_ID = r"persistence::WalEntry\)\}\.%d: u64\)$" % fi["doc_id"]
+    ENTRY_META = r"persistence::WalEntry\)\}\.%d: (std::collections::)?HashMap<" % fi["metadata"]
+    DOCMAP = r"HashMap::<u64, \(Vec<f32>, HashMap<(std::string::)?String, (std::string::)?String>\)>::"
+
+    def keyed(pos):
+        def also(f, b, _t):
+            a = _M._split_top(b.args)
+            return len(a) > pos and bool(re.search(ENTRY_ID, _o(f, a[pos])))
+        return also
+
+    def meta_store(f, b, st):
+        m = re.match(r"^\(\*_\d+\) = move (_\d+);$", st)
+        return bool(m) and bool(re.search(ENTRY_META, _o(f, m.group(1))))
+    NEXT = call(r"= <(std::vec::)?IntoIter<(persistence::)?WalEntry> as Iterator>::next\(", name="next WAL entry")
+    INS = Ev(r"= " + DOCMAP + r"insert\(", kind="call", also=keyed(1), name="documents.insert(entry.doc_id, ..)")
+    REM = Ev(r"= " + DOCMAP + r"remove::<u64>\(", kind="call", also=keyed(1), name="documents.remove(&entry.doc_id)")
+    GET = Ev(r"= " + DOCMAP + r"get_mut::<u64>\(", kind="call", also=keyed(1), name="documents.get_mut(&entry.doc_id)")
+    STORE = Ev(r"^\(\*_\d+\) = move _\d+;$", kind="stmt", also=meta_store, name="*meta = entry.metadata")
+    ABSENT = Arm(r"^discr\(call HashMap::<u64, \(Vec<f32>, HashMap<String, String>\)>::get_mut::<u64>\)$", {"0"}, name="document absent")
+    arm = lambda n: Arm(OPRX, {str(vi[n])}, name="entry.op == " + n)
+    return [rc.follows(arm("Insert"), INS, exit="any", exit_ev=NEXT),
+            rc.follows(arm("Delete"), REM, exit="any", exit_ev=NEXT),
+            rc.follows(arm("UpdateMetadata"), GET, exit="any", exit_ev=NEXT),
+            rc.follows(arm("UpdateMetadata"), STORE, exit="any", exit_ev=NEXT, cut=[ABSENT])]
+
+
 def snapshot_seq(F):
     """create_snapshot: the sequence number recorded in the snapshot (and in the MANIFEST) is next_wal_seq - 1, read while the
     snapshot lock is held exclusively: every entry with a smaller or equal sequence number is in the store the snapshot
@@ -255,6 +295,8 @@ MOS = [
        snapshot_seq, functions=[("hnsw_backend.rs", "create_snapshot")]),
     MO("O2.6/update_logged_is_applied", "update_metadata: the WAL entry and the document store receive clones of the same final metadata; replay replaces (never merges) on UpdateMetadata",
        update_logged_is_applied, functions=[("hnsw_backend.rs", "update_metadata"), ("hnsw_backend.rs", "recover_with_hnsw_params_and_mode")]),
+    MO("O2.7/replay_applies", "recover: every non-skipped WAL entry takes effect before the next one is read — Insert inserts under entry.doc_id, Delete removes it, UpdateMetadata overwrites a present document's metadata with entry.metadata (no payload-dependent shortcut)",
+       replay_applies, functions=[("hnsw_backend.rs", "recover_with_hnsw_params_and_mode")]),
     MO("O2.1/replay_skip", "recover: every WAL entry with seq_no > snapshot seq (or, legacy, newer than the snapshot timestamp) is applied, and no entry strictly older than the snapshot is re-applied — proved for all values (DECIDES)",
        replay_skip, functions=[("hnsw_backend.rs", "recover_with_hnsw_params_and_mode")]),
     MO("O2.2/compaction_entry", "compact_old_wal_segments: every entry that replay would apply (not covered by the snapshot) lowers all_entries_covered — proved for all values; keeping more than necessary is allowed",
